@@ -105,7 +105,8 @@ def _replay_purity(tier: str = "quick"):
         res = list(ex.map(lambda j: _run_history(*j), jobs))
     by_reaction: dict = {}
     for j, r in zip(jobs, res):
-        by_reaction.setdefault((j[0], j[1]), []).append((j, r))
+        # one group per (reaction, formalism, kind of history): one-builder histories ('@') have their own reference model
+        by_reaction.setdefault((j[0], j[1] + ("@" if j[2].startswith("@") else "")), []).append((j, r))
     return by_reaction
 
 
@@ -220,7 +221,7 @@ def build(chk: Check) -> None:
     n_runs = 0
     for (reaction, formalism), runs in matrix.items():
         ref_job, ref = runs[0]
-        f = "hel" if formalism == "helicity" else "can"
+        f = "hel" if formalism.rstrip("@") == "helicity" else "can"
         for j, r in runs:
             n_runs += 1
             tag = f"{reaction}/{f}/history={j[2].replace(',', '>')}/seed={j[3]}"
